@@ -33,6 +33,7 @@ from pathlib import Path
 
 from src.core.base import BaseLintContext, BaseLintRule
 from src.core.constants import HEADER_SCAN_LINES, IgnoreDirective, Language
+from src.core.linter_utils import path_in_project
 from src.core.types import Severity, Violation
 from src.linter_config.directive_markers import has_bare_file_ignore, has_bare_line_ignore
 from src.linter_config.ignore import get_ignore_parser
@@ -305,7 +306,8 @@ class StatelessClassRule(BaseLintRule):  # thailint: ignore[srp,dry]
             List of classes with test classes removed
         """
         # If file is a test file, exempt all classes
-        if is_test_file(str(context.file_path) if context.file_path else None):
+        project_path = path_in_project(context)
+        if is_test_file(str(project_path) if project_path else None):
             return []
 
         class_nodes = self._parse_class_nodes(context)
